@@ -21,7 +21,7 @@ import vlib
 ROLE = {"A": "registry", "B": "registry", "M": "mirror"}
 TOKEN_HOSTS = {"Ta", "Tb", "Tm", "X"}
 KEEP = {"msg": ("to", "scheme", "owners"), "challenge": ("from", "realm"), "log": ("owners",),
-        "logdone": (), "redirect": (), "done": ()}
+        "logdone": (), "redirect": (), "location": (), "done": ()}
 
 
 def load_jsonl(fn):
@@ -54,13 +54,18 @@ def secret_kinds(what, owner):
 
 
 def role_of(host, events, upto, conf):
+    """How the host got involved in this run.  P has the DNS name of registry A but another port."""
     if host in TOKEN_HOSTS:
         return "token-host"
+    pre = "subdomain-" if host == "S" else "same-name-" if host == "P" else ""
     for e in events[:upto]:
         if e["ev"] == "redirect" and e["to"] == host and e["from"] != host:
-            return ("subdomain-" if host == "S" else "") + "redirect-target"
+            return pre + "redirect-target"
+    for e in events[:upto]:
+        if e["ev"] == "location" and e["to"] == host and e["from"] != host:
+            return pre + "upload-location"
     if conf.get("op") in ("ext", "copyext") and conf.get("extHost") == host and host not in ROLE:
-        return "external-host"
+        return pre + "external-host"
     return ROLE.get(host, "unknown-host")
 
 
@@ -77,8 +82,12 @@ def signature(trace, idx, bad, after_o1=False):
     to = ev["to"]
     if bad.startswith("O2"):
         via = "direct"
-        if any(e["ev"] == "redirect" and e["to"] == to and e["scheme"] == ev["scheme"] for e in events[:idx]):
-            via = "redirect"
+        hops = [e for e in events[:idx] if e["ev"] in ("redirect", "location") and e["to"] == to
+                and e["scheme"] == ev["scheme"]]
+        if hops:
+            via = "redirect" if any(e["ev"] == "redirect" for e in hops) else "upload-location"
+            if all(e.get("spell") == "mixed-case" for e in hops):
+                via += "-mixed-case"     # the URL spelled the registry's name in another case
         elif conf.get("op") in ("ext", "copyext") and conf.get("extHost") == to and conf.get("extSch") == ev["scheme"]:
             via = "external-url"
         whose = "own" if ev["owners"] == [to] and not after_o1 else "foreign"
@@ -90,7 +99,10 @@ def signature(trace, idx, bad, after_o1=False):
     if to in TOKEN_HOSTS:
         namers = sorted(set(role_of(e["from"], events, i, conf) for i, e in enumerate(events[:idx])
                             if e["ev"] == "challenge" and e.get("realm") == to))
-        return "O1:%s-of-%s-to-token-host:named-by-%s" % (what, orole, "+".join(namers) or "nobody")
+        # a configured registry / mirror that names the realm too does so for its own clientHost; what
+        # matters is which unconfigured hosts named it for this one
+        foreign = [n for n in namers if n not in ("registry", "mirror")]
+        return "O1:%s-of-%s-to-token-host:named-by-%s" % (what, orole, "+".join(foreign or namers) or "nobody")
     how = "after-its-401" if any(e["ev"] == "challenge" and e["from"] == to for e in events[:idx]) else "unchallenged"
     return "O1:%s-of-%s-to-%s:%s" % (what, orole, role_of(to, events, idx, conf), how)
 
@@ -112,7 +124,7 @@ def replay(ctx, scns, name, jobs=16):
     return trs
 
 
-HEAD_SWITCHES = {"HonorsHost": False, "SchemeBound": True, "StripOnRedirect": True}
+HEAD_SWITCHES = {"HonorsHost": False, "SchemeBound": True, "StripOnRedirect": True, "FoldCase": False}
 
 PROBES = [
     {"id": "probe-s3", "conf": {"op": "bget", "tls": {"A": True, "B": True, "M": True},
@@ -124,6 +136,11 @@ PROBES = [
                                    "cred": {"A": "up", "B": "up", "M": "up"}},
      "script": [{"h": "A", "o": "l", "r": {"t": "u", "c": "b1"}},
                 {"h": "A", "o": "l", "r": {"t": "rd", "to": "A", "ts": "http"}}]},
+    {"id": "probe-case", "conf": {"op": "bget", "tls": {"A": True, "B": True, "M": True}, "ports": True,
+                                  "cred": {"A": "up", "B": "up", "M": "up"}},
+     "script": [{"h": "A", "o": "l", "r": {"t": "rd", "to": "Ac", "ts": "http"}},
+                {"h": "A", "o": "l", "r": {"t": "u", "c": "b1"}},
+                {"h": "A", "o": "l", "r": {"t": "rd", "to": "Ac", "ts": "http"}}]},
     {"id": "probe-sub", "conf": {"op": "bget", "tls": {"A": True, "B": True, "M": True},
                                  "cred": {"A": "up", "B": "up", "M": "up"}},
      "script": [{"h": "A", "o": "l", "r": {"t": "u", "c": "b1"}},
@@ -142,6 +159,7 @@ def detect_switches(ctx):
         "HonorsHost": not leak("probe-s3", lambda e: e["to"] == "R" and "A" in e["owners"]),
         "SchemeBound": not leak("probe-plain", lambda e: e["to"] == "A" and e["scheme"] == "http"),
         "StripOnRedirect": not leak("probe-sub", lambda e: e["to"] == "S"),
+        "FoldCase": not leak("probe-case", lambda e: e["to"] == "A" and e["scheme"] == "http"),
     }
 
 
@@ -252,24 +270,24 @@ def run(ctx):
         # 1. exhaustive checks of the design spec.  Default switches = /repo today (cleartext and
         #    sub-domain repairs in, S3 open); "fixed" = S3 repaired too; "as found" = before the repairs.
         mc = [ctx.tlc("AuthMC", "C11_mc_asis.cfg", timeout=3000, workers=8,
-                      label="code as is (S3 open), <=3 faults, 14 generator configurations: every leak goes through "
+                      label="code as is (S3 open), <=3 faults, 17 generator configurations: every leak goes through "
                             "a handler keyed by a foreign host"),
               ctx.tlc("AuthMC", "C11_mc_fixed.cfg" if thorough else
                       write_cfg(ctx, "C11_mc_fixed.cfg", "C11_mc_fixed_q.cfg", {"MaxFaults": 2}), timeout=3000, workers=8,
-                      label="S3 repaired too, <=%d faults, 14 generator configurations: no leak" % (3 if thorough else 2))]
+                      label="S3 repaired too, <=%d faults, 17 generator configurations: no leak" % (3 if thorough else 2))]
         if thorough:
             wide = {"Confs": "AllConfs", "MaxFaults": 2}
             mc.append(ctx.tlc("AuthMC", write_cfg(ctx, "C11_mc_asis.cfg", "C11_mc_asis_all.cfg", wide), timeout=3000,
-                              workers=8, label="code as is (S3 open), <=2 faults, all 232 configurations"))
+                              workers=8, label="code as is (S3 open), <=2 faults, all 248 configurations"))
             mc.append(ctx.tlc("AuthMC", write_cfg(ctx, "C11_mc_fixed.cfg", "C11_mc_fixed_all.cfg", wide), timeout=3000,
-                              workers=8, label="S3 repaired too, <=2 faults, all 232 configurations: no leak"))
+                              workers=8, label="S3 repaired too, <=2 faults, all 248 configurations: no leak"))
             mc.append(ctx.tlc("AuthMC", "C11_mc_asfound.cfg", timeout=3000, workers=8,
-                              label="code as found (before 7d8bea3, 14e04da), <=3 faults, 14 configurations: three leak "
+                              label="code as found (before 7d8bea3, 14e04da), <=3 faults, 17 configurations: three leak "
                                     "mechanisms"))
             for k in ("HonorsHost", "SchemeBound", "StripOnRedirect"):
                 one = write_cfg(ctx, "C11_mc_repair.cfg", "C11_mc_%s.cfg" % k, {k: "TRUE"})
                 mc.append(ctx.tlc("AuthMC", one, timeout=3000, workers=8,
-                                  label="as found + only %s, <=3 faults, 14 configurations: its leak class is gone" % k))
+                                  label="as found + only %s, <=3 faults, 17 configurations: its leak class is gone" % k))
             mc.append(ctx.tlc("AuthMC", "C11_mc_deep.cfg", timeout=3000, workers=8,
                               label="code as is (S3 open), <=4 faults, 3 configurations, core alphabets"))
         lap("model checked")
@@ -434,8 +452,8 @@ def run(ctx):
         "user names count for O1 (transmission) but not for O3: the code logs them on purpose",
         "tokens issued to anonymous requests are public, not secrets; a token belongs to the registry named in "
         "the service parameter of the request that obtained it with credentials",
-        "an upload Location on another host named by the registry itself is not scripted (upstream's tests "
-        "treat sending the registry's credentials there as intended)",
+        "a host is identified by name and port (reg-a.test:9000 is not reg-a.test[:5000]); names are compared "
+        "case insensitively by the observer",
         "credential helpers, token servers that redirect, TLS certificate validation are out of scope",
     ]
     if drift:
